@@ -449,7 +449,7 @@ func (w *c07World) run(r *kit.Result, id string, ps c07ParentSpec, q c07Req, ren
 		// Require(lookup_views) keeps a systematic loss of this view from passing as "held")
 		r.Count("created_token_not_lookupable", 1)
 		self, serr := v.Do(vReq{Op: logical.ReadOperation, Path: "auth/token/lookup-self", Token: a.ClientToken, NS: q.NS})
-		r.Note("case %s: root cannot look up the created token in %q (%s); lookup-self with it: %s; response view %+v", id, q.NS, strings.TrimSpace(w.lastLookupErr), strings.TrimSpace(vErrStr(self, serr)), *views[0])
+		r.Note("case %s: root cannot look up the created token in %q (%s); lookup-self with it: %s; response: policies %v ttl %s orphan %v type %s", id, q.NS, strings.Join(strings.Fields(w.lastLookupErr), " "), strings.Join(strings.Fields(vErrStr(self, serr)), " "), views[0].TokenPolicies, views[0].TTL, views[0].Orphan, views[0].Type)
 	} else {
 		r.Count("lookup_views", 1)
 		if lv.Period > 0 {
@@ -814,6 +814,20 @@ func c07RandCase(rng *kit.Rand, w *c07World, n int) (c07ParentSpec, c07Req) {
 
 // ---------------------------------------------------------------- tests
 
+// c07Shard returns the shard whose PRNG streams are used: this process' shard,
+// or - when a single case is replayed - the shard named in the case id
+// ("<prefix>:<shard>:<n>"), so that witnesses of any thorough shard replay in one process.
+func c07Shard(prefix string) int {
+	shard, _ := kit.Shard()
+	if oc := kit.OnlyCase(); strings.HasPrefix(oc, prefix+":") {
+		var s, n int
+		if _, err := fmt.Sscanf(oc, prefix+":%d:%d", &s, &n); err == nil {
+			return s
+		}
+	}
+	return shard
+}
+
 const c07Rule0 = "a case = one parent token made for the case (kind root/expiring root/service/batch/use-limited/login/login with entity; namespace; access policy set with or without sudo on the called path; content policies; default or not) x one request to auth/token/create | create-orphan | create/<role> (role written for the case) in the same or the child namespace; every returned token is judged on the response auth block, on lookup of the stored token, on lookup under a caller-chosen id and after a renewal attempt against the doc-derived invariants (policy bound incl. role lists/globs/sudo/cross-namespace, root, non-assignable, default rule, orphan, period, id, type, role CIDRs/uses, lifetime vs explicit and mount max, entity, namespace); distinct non-trivial = distinct (capability, endpoint, role shape, cross-namespace, set of unentitled asks, flags, outcome)"
 
 func c07Requires(r *kit.Result, scale int64) {
@@ -830,7 +844,7 @@ func c07Requires(r *kit.Result, scale int64) {
 
 func TestVerif_C07_Random(t *testing.T) {
 	seed := kit.Seed(7)
-	shard, _ := kit.Shard()
+	shard := c07Shard("rand")
 	r := kit.NewResult(t, "c07-random", seed, "seeded random cases; "+c07Rule0)
 	defer r.Write(t)
 	w := c07Boot(t)
@@ -857,7 +871,7 @@ func TestVerif_C07_Random(t *testing.T) {
 // instead of sampling it.
 func TestVerif_C07_Lattice(t *testing.T) {
 	seed := kit.Seed(7)
-	shard, _ := kit.Shard()
+	shard := c07Shard("lat")
 	r := kit.NewResult(t, "c07-lattice", seed, "full product capability{none, sudo on the called path, sudo only elsewhere, root} x namespaces{root, ns1, root->ns1} x endpoint{create, create-orphan, role without lists, role allowed, role allowed+glob, role disallowed, role disallowed glob, role allowed+disallowed, role allowing root, role with token_no_default_policy} x requested policies{none, subset, superset, all of the parent plus one, default, root, root in upper case, response-wrapping (two spellings), glob-matched, role-disallowed} x no_default_policy x parent has default; capability x namespaces x endpoint{create, create-orphan, plain role, orphan role, period role, explicit-max role, default-batch role with explicit max} (with a renewal attempt) x flag{no_parent, period, id, batch type, explicit max, huge ttl, combinations}; batch and use-limited parents x capability x namespaces x endpoints; "+c07Rule0)
 	defer r.Write(t)
 	w := c07Boot(t)
@@ -931,7 +945,7 @@ func TestVerif_C07_Lattice(t *testing.T) {
 	renew := false
 	do := func(capability, ep string, m nsm, hasDefault bool, fill func(q *c07Req)) {
 		n++
-		id := fmt.Sprintf("lat:%d", n)
+		id := fmt.Sprintf("lat:%d:%d", shard, n)
 		if !kit.WantCase(id) {
 			return
 		}
@@ -1028,7 +1042,7 @@ func TestVerif_C07_Lattice(t *testing.T) {
 
 func TestVerif_C07_Login(t *testing.T) {
 	seed := kit.Seed(7)
-	shard, _ := kit.Shard()
+	shard := c07Shard("login")
 	r := kit.NewResult(t, "c07-login", seed, "seeded random auth-backend login responses through the recording credential backend (claimed policies incl. root / response-wrapping / case and whitespace variants / duplicates, ttl, max_ttl, period, explicit_max_ttl, token type, no_default_policy, alias with identity policies) on mounts with different max TTLs and token-type tunes in two namespaces; each issued token is judged on the response and on lookup: no root, no non-assignable policy, only claimed (+default, +identity) policies, finite lifetime bounded by explicit max, mount max and backend max; non-trivial = distinct (mount, claim shape, outcome)")
 	defer r.Write(t)
 	w := c07Boot(t)
